@@ -59,6 +59,15 @@ pub fn begin_case(describe: impl FnOnce() -> Value) {
     }
 }
 
+/// A long case is still making progress (large image being cut, ...).
+pub fn progress() {
+    SLOT.with(|s| {
+        if s.get() != usize::MAX {
+            PROGRESS[s.get()].store(now_ms(), Ordering::Relaxed);
+        }
+    });
+}
+
 /// A worker is idle (finished its chunk): no hang can be blamed on it.
 pub fn idle() {
     SLOT.with(|s| {
